@@ -86,11 +86,10 @@ Theorem C26_lookup_join_spec :
 Proof. exact lookup_join_spec. Qed.
 Print Assumptions C26_lookup_join_spec.
 
-Theorem C26_count_fast_path_spec : forall col rows, count_fast_path false col rows = count_spec col rows.
+Theorem C26_count_fast_path_spec : forall col rows, count_fast_path false col rows = Some (count_spec col rows).
 Proof. exact count_fast_path_spec. Qed.
 Print Assumptions C26_count_fast_path_spec.
 
-Theorem C26_count_fast_path_keyless_refuted :
-  exists col rows, count_fast_path true col rows <> count_spec col rows.
-Proof. exact count_fast_path_keyless_refuted. Qed.
-Print Assumptions C26_count_fast_path_keyless_refuted.
+Theorem C26_count_answer_spec : forall keyless col rows, count_answer keyless col rows = count_spec col rows.
+Proof. exact count_answer_spec. Qed.
+Print Assumptions C26_count_answer_spec.
